@@ -598,3 +598,100 @@ def obligations():
     comp = ['TTuple', 'TApp', 'TArray', 'TVec', 'TRef', 'TFunc']
     return _obligations_76() + [Ob('O7.7-definition-types-d1', 'no non-generic struct / enum definition keeps a generic type application in a field after mono::mono: depth 1', ob_def_types, ('quick', 'thorough'), 5, dict(top=comp, inner=['TApp', 'TInt32'], depth=1)),
                                 Ob('O7.7-definition-types-d2', 'no non-generic struct / enum definition keeps a generic type application in a field after mono::mono: depth 2', ob_def_types, ('quick', 'thorough'), 10, dict(top=comp, inner=['TApp', 'TInt32'], depth=2))]
+
+# ----------------------------------------------------------------------------- O7.8 no generic type application survives anywhere in the body of a function
+FORMS_78 = {'let-value': 'let w = o; ()', 'let-body': 'let w = 1; o', 'if-then': 'if c { o } else { p }', 'if-else': 'if c { p } else { o }', 'match-arm': 'match n { 1 => o, _ => p }',
+            'match-default': 'match n { 1 => p, _ => o }', 'match-scrutinee': 'match o { _ => 1 }', 'while-body': 'while c { let w = o; () }', 'tuple-item': '(1, o)', 'array-item': '[o]',
+            'call-arg': 'f(o)', 'closure-body': '|z: int32| o', 'proj': '(o, 1).0', 'go': 'go f(o)'}
+def replay_app_residue(form):
+    import re as _re
+    body = _re.sub(r'\bp\b', 'Opt::Non', _re.sub(r'\bo\b', 'Opt::Som(1)', FORMS_78[form])) if form != 'match-scrutinee' else FORMS_78[form]      # a constructor expression: its type is visible in the dumps and reaches the backend
+    src = ('enum Opt[T] { Non, Som(T) }\nfn f(x: Opt[int32]) -> unit { () }\nfn h(c: bool, n: int32, o: Opt[int32], p: Opt[int32]) -> unit { let r_ = %s; () }\n'
+           'fn main() -> unit { h(true, 1, Opt::Non, Opt::Non) }\n') % (body if not body.startswith('let') and not body.startswith('while') and not body.startswith('go') else '{ %s }' % body)
+    d = tempfile.mkdtemp(prefix='vf-c07c-')
+    try:
+        open(os.path.join(d, 'main.gom'), 'w').write(src)
+        p = subprocess.run([build.compiler_bin(), 'run', '--dump-mono', '--dump-go', os.path.join(d, 'main.gom')], capture_output=True, text=True, timeout=60)
+    finally: shutil.rmtree(d, ignore_errors=True)
+    txt = p.stdout + p.stderr
+    pan = [l for l in txt.splitlines() if 'panicked' in l or 'generic types not supported' in l]
+    mono = txt.split('== Go ==')[0]
+    left = [l.strip() for l in mono.splitlines() if 'Opt[' in l]
+    return bool(pan) or bool(left), 'goml `%s`: %s' % (src.replace('\n', ' | '), ('the backend panics: ' + pan[0][:160]) if pan else ('the mono dump still has ' + left[0][:120]) if left else 'no type application left: ' + txt[:100].replace('\n', ' | '))
+
+def ob_mono_app_residue(r, tier, seed):
+    W = e2.fresh_world(CRATES); tt = W.tt; W.step_limit = 400000
+    TY = tt.find_adt(['tast', 'Ty'], 'compiler'); CE = tt.find_adt(['core', 'Expr'], 'compiler'); CF = tt.find_adt(['core', 'Fn'], 'compiler'); CFILE = tt.find_adt(['core', 'File'], 'compiler'); CARM = tt.find_adt(['core', 'Arm'], 'compiler')
+    PR = tt.find_adt(['common', 'Prim'], 'compiler'); CP = tt.find_adt(['tast', 'ClosureParam'], 'compiler'); ME = [a for a in tt.by_name['MonoExpr'] if a.crate == 'compiler'][0]
+    ED = tt.find_adt(['env', 'EnumDef'], 'compiler'); TI = tt.find_adt(['tast', 'TastIdent'], 'compiler'); GE = tt.find_adt(['env', 'GlobalTypeEnv'], 'compiler'); TEV = tt.find_adt(['env', 'TypeEnv'], 'compiler')
+    r.bounds = 'the non-generic function `fn h(c: bool, n: int32, o: Opt[int32], p: Opt[int32])` whose body mentions a value of the instantiated generic type Opt[int32] at one of the positions %s; every type stored anywhere in the MonoFile returned by mono::mono is inspected' % sorted(FORMS_78)
+    r.assumptions = ['names::ty_compact replaced by an injective stand-in', 'oracle: no tast::Ty value reachable from the output (signatures, expression types, closure parameter types) is or contains an application of the generic enum Opt (the backend has no generic types)']
+    def m_ty_compact(ex, a): return mkstr(json.dumps(shape(ex.deref(a[0]), TY), sort_keys=True).replace(' ', ''))
+    W.stubs['ty_compact'] = m_ty_compact
+    T = lambda n, *f: Agg(TY.key, TY.vindex(n), list(f))
+    E = lambda n, **kw: Agg(CE.key, CE.vindex(n), [kw[f[0]] for f in CE.variants[CE.vindex(n)].fields])
+    ident = lambda n: Agg(TI.key, 0, [mkstr(n)])
+    def fn(name, params, ret, body):
+        return Agg(CF.key, 0, [{'name': mkstr(name), 'generics': PyVec([]), 'params': PyVec([Agg('tuple', 0, [mkstr(n), t]) for n, t in params]), 'ret_ty': ret, 'body': body}[fl[0]] for fl in CF.variants[0].fields])
+    def find_apps(v, path, out, depth=0):
+        from mirsym.engine import Ref as R_
+        if depth > 300: return
+        if isinstance(v, R_): return find_apps(v.get(), path, out, depth + 1)
+        if isinstance(v, Agg):
+            if v.ty == 'Box': return find_apps(unbox(v), path, out, depth + 1)
+            if v.ty == TY.key and TY.variants[v.idx].name == 'TApp': out.append('/'.join(path)); return
+            here = path + [ME.variants[v.idx].name] if v.ty == ME.key else path
+            for x in v.fields: find_apps(x, here, out, depth + 1)
+        elif isinstance(v, PyVec):
+            for x in v.items: find_apps(x, path, out, depth + 1)
+    def fld(adt, agg, name): return agg.fields[[f[0] for f in adt.variants[0].fields].index(name)]
+    def entry(ex):
+        form = ex.choose([(True, k) for k in sorted(FORMS_78)]); ex.notes['form'] = form
+        i32, un, bl = T('TInt32'), T('TUnit'), T('TBool'); opt = lambda: T('TApp', mkbox(T('TEnum', mkstr('Opt'))), PyVec([T('TInt32')]))
+        tup = lambda ts: T('TTuple', PyVec(ts)); fun = lambda ps, r_: T('TFunc', PyVec(ps), mkbox(r_))
+        o = lambda: E('EVar', name=mkstr('o'), ty=opt()); p_ = lambda: E('EVar', name=mkstr('p'), ty=opt()); c = lambda: E('EVar', name=mkstr('c'), ty=bl); n = lambda: E('EVar', name=mkstr('n'), ty=i32)
+        unit = lambda: E('EPrim', value=Agg(PR.key, PR.vindex('Unit'), [ms.UNIT]), ty=un); one = lambda: E('EPrim', value=Agg(PR.key, PR.vindex('Int32'), [1]), ty=i32)
+        let = lambda nm, v, b, ty: E('ELet', name=mkstr(nm), value=mkbox(v), body=mkbox(b), ty=ty)
+        arm = lambda l, b: Agg(CARM.key, 0, [l, b])
+        callf = lambda: E('ECall', func=mkbox(E('EVar', name=mkstr('f'), ty=fun([opt()], un))), args=PyVec([o()]), ty=un)
+        e = {'let-value': lambda: let('w', o(), unit(), un), 'let-body': lambda: let('w', one(), o(), opt()),
+             'if-then': lambda: E('EIf', cond=mkbox(c()), then_branch=mkbox(o()), else_branch=mkbox(p_()), ty=opt()), 'if-else': lambda: E('EIf', cond=mkbox(c()), then_branch=mkbox(p_()), else_branch=mkbox(o()), ty=opt()),
+             'match-arm': lambda: E('EMatch', expr=mkbox(n()), arms=PyVec([arm(one(), o())]), default=ms.some(mkbox(p_())), ty=opt()),
+             'match-default': lambda: E('EMatch', expr=mkbox(n()), arms=PyVec([arm(one(), p_())]), default=ms.some(mkbox(o())), ty=opt()),
+             'match-scrutinee': lambda: E('EMatch', expr=mkbox(o()), arms=PyVec([]), default=ms.some(mkbox(one())), ty=i32),
+             'while-body': lambda: E('EWhile', cond=mkbox(c()), body=mkbox(let('w', o(), unit(), un)), ty=un),
+             'tuple-item': lambda: E('ETuple', items=PyVec([one(), o()]), ty=tup([i32, opt()])), 'array-item': lambda: E('EArray', items=PyVec([o()]), ty=T('TArray', 1, mkbox(opt()))),
+             'call-arg': callf, 'closure-body': lambda: E('EClosure', params=PyVec([Agg(CP.key, 0, [mkstr('z'), i32, ms.NONE()])]), body=mkbox(o()), ty=fun([i32], opt())),
+             'proj': lambda: E('EProj', tuple=mkbox(E('ETuple', items=PyVec([o(), one()]), ty=tup([opt(), i32]))), index=0, ty=opt()),
+             'go': lambda: E('EGo', expr=mkbox(callf()), ty=un)}[form]()
+        ety = e.fields[[f[0] for f in CE.variants[e.idx].fields].index('ty')]
+        body = let('r_', e, unit(), un)
+        h = fn('h', [('c', bl), ('n', i32), ('o', opt()), ('p', opt())], un, body)
+        f_ = fn('f', [('x', opt())], un, unit())
+        main = fn('main', [], un, unit())
+        genv = ex.call('env::GlobalTypeEnv::new_empty', [])
+        tenv = fld(GE, genv, 'type_env'); enums = fld(TEV, tenv, 'enums')
+        enums.keys.append(ident('Opt')); enums.vals.append(Agg(ED.key, 0, [ident('Opt'), PyVec([ident('T')]), PyVec([Agg('tuple', 0, [ident('Non'), PyVec([])]), Agg('tuple', 0, [ident('Som'), PyVec([T('TParam', mkstr('T'))])])])]))
+        from mirsym.engine import Limit, Panic
+        try: res = ex.call('mono::mono', [genv, Agg(CFILE.key, 0, [PyVec([f_, h, main])])])
+        except Limit as e_: raise Panic('HANG-CANDIDATE: ' + str(e_))
+        out = []
+        find_apps(res.fields[0], [], out)
+        return form, out
+    res = e2.explore(r, W, entry, [])
+    for p in res:
+        r.cases += 1
+        if p.kind != 'ok':
+            if not any(f.key == 'panic' for f in r.findings): r.findings.append(Finding('panic', 'mono::mono panics / does not finish on form %s: %s' % ((p.notes or {}).get('form'), str(p.value)[:160]), {}, False, 'not replayed'))
+            continue
+        form, left = p.value; r.nontrivial += 1
+        if left:
+            key = 'type-application-survives:' + form
+            try: ok_, detail = replay_app_residue(form)
+            except Exception as e_: ok_, detail = False, 'replay failed: %s' % str(e_)[:160]
+            r.findings.append(Finding(key, 'form `%s` (`%s` with o: Opt[int32]): the output of mono::mono still contains a generic type application at %s' % (form, FORMS_78[form], sorted(set(left))[:4]), {'form': form}, ok_, detail))
+        elif len(r.samples) < 3: r.samples.append({'form': form})
+
+_obligations_77 = obligations
+def obligations():
+    return _obligations_77() + [Ob('O7.8-body-type-applications', 'no generic type application survives in any type stored inside a function body after mono::mono', ob_mono_app_residue, ('quick', 'thorough'), 5, {})]
